@@ -17,6 +17,11 @@ WITNESS_HS = [[ACCEPT, 1], [HANDSHAKE, 1, 0, 100, 1], [HANDSHAKE, 1, 0, 200, 1],
 WITNESS_TUN = [[ACCEPT, 1], [HANDSHAKE, 1, 0, 100, 1], [HANDSHAKE, 1, 0, 200, 0], [CLOSE, 1]]
 WITNESS_WFAIL = [[ACCEPT, 1], [HANDSHAKE, 1, 0, 100, 1], [BREAK, 1], [HANDSHAKE, 1, 0, 200, 1], [CLOSE, 1]]
 CFG0 = {"maxConn": 0, "maxCtl": 0, "tmo": 2}
+# interleavings: CloseConnection completes between the handshake response write and UpdateAuth; a re-login of the same
+# client on another connection inside CloseConnection; a close inside a kick
+WITNESS_LATE_CLOSE = [[ACCEPT, 1], [HANDSHAKE, 1, 0, 7, 1, 2, CLOSE, 1, 0, 0, 0]]
+WITNESS_CLOSE_RELOGIN = [[ACCEPT, 1], [ACCEPT, 2], [HANDSHAKE, 1, 0, 7, 1], [CLOSE, 1, 0, 0, 0, 2, HANDSHAKE, 2, 0, 7, 1]]
+WITNESS_KICK_CLOSE = [[ACCEPT, 1], [ACCEPT, 2], [HANDSHAKE, 1, 0, 7, 1], [KICK, 7, 2, 0, 0, 2, CLOSE, 1, 0, 0, 0]]
 
 EX_PREFIX = [[ACCEPT, 1], [ACCEPT, 2], [ACCEPT, 3]]
 EX_ALPHABET = [[HANDSHAKE, 1, 0, 1, 1], [HANDSHAKE, 1, 0, 2, 1], [HANDSHAKE, 2, 0, 1, 1], [HANDSHAKE, 2, 0, 2, 1],
@@ -25,6 +30,43 @@ EX_ALPHABET = [[HANDSHAKE, 1, 0, 1, 1], [HANDSHAKE, 1, 0, 2, 1], [HANDSHAKE, 2, 
 EX_ALPHABET_LIMIT = [[HANDSHAKE, 1, 0, 1, 1], [HANDSHAKE, 2, 0, 1, 1], [HANDSHAKE, 2, 0, 2, 1], [HANDSHAKE, 3, 0, 2, 1],
                      [HANDSHAKE, 3, 1, 1, 1], [REGRAW, 3, 1], [REGRAW, 2, 0], [CLOSE, 1], [REMOVE, 2], [KICK, 1, 3],
                      [SWEEP], [TICK, 3], [HEARTBEAT, 2]]
+
+
+EX_INJECT = [[CLOSE, 1, 0, 0, 0], [CLOSE, 2, 0, 0, 0], [KICK, 1, 3, 0, 0], [SWEEP, 0, 0, 0, 0],
+             [HANDSHAKE, 2, 0, 1, 1], [HANDSHAKE, 3, 0, 2, 1]]
+HOSTS = {HANDSHAKE: 2, CLOSE: 2, KICK: 4}      # interleaving points (before/after each unlocked I/O call)
+
+
+def with_inj(op, at, j):
+    """operation `op` during whose interleaving point `at` operation `j` runs to completion"""
+    return (list(op) + [0] * 5)[:5] + [at + 1] + (list(j) + [0] * 5)[:5]
+
+
+def rand_inj(rng, op, conns, clients):
+    c = op[1] if op[0] != KICK else rng.choice(conns)
+    x = op[3] if op[0] == HANDSHAKE else (op[1] if op[0] == KICK else rng.choice(clients))
+    others = [d for d in conns if d != c] or conns
+    j = rng.choice([[CLOSE, c], [CLOSE, c], [CLOSE, rng.choice(others)], [KICK, x, rng.choice(conns)], [KICK, rng.choice(clients), c],
+                    [SWEEP], [HANDSHAKE, rng.choice(others), 0, x, 1], [HANDSHAKE, rng.choice(others), 0, rng.choice(clients), 1],
+                    [REMOVE, c]])
+    return with_inj(op, rng.randrange(HOSTS[op[0]]), j)
+
+
+def gen_interleaved(rng, n, maxdepth):
+    out = []
+    for c in gen_structured(rng, n, maxdepth):
+        conns = sorted({o[1] for o in c["ops"] if o[0] in (ACCEPT, HANDSHAKE, CLOSE)} | {1, 2})
+        clients = sorted({o[3] for o in c["ops"] if o[0] == HANDSHAKE} | {1})
+        ops, k = [], 0
+        for o in c["ops"]:
+            if o[0] in HOSTS and rng.random() < 0.5:
+                ops.append(rand_inj(rng, o, conns, clients))
+                k += 1
+            else:
+                ops.append(o)
+        if k:
+            out.append({"cfg": c["cfg"], "ops": ops, "stream": "interleaved"})
+    return out
 
 
 def rand_op(rng, conns, clients):
@@ -114,7 +156,7 @@ def gen_malformed(rng, n, maxdepth):
 
 
 def flat(st):
-    f = [st["err"], st["n"], len(st["sess"])] + st["sess"] + [len(st["reg"])]
+    f = [st["err"], st["n"], st.get("fired", 0), len(st["sess"])] + st["sess"] + [len(st["reg"])]
     for e in st["reg"]:
         f += e
     f.append(len(st["idx"]))
@@ -131,7 +173,7 @@ def flat(st):
 
 
 def pad(o):
-    return (list(o) + [0, 0, 0, 0, 0])[:5]
+    return (list(o) + [0] * 11)[:11]
 
 
 def case_value(variant_current, cfg, ops, steps):
@@ -139,7 +181,9 @@ def case_value(variant_current, cfg, ops, steps):
 
 
 def describe(ops):
-    return "; ".join("%s(%s)" % (OPNAMES[o[0]] if o[0] < 13 else "?", ",".join(map(str, o[1:]))) for o in ops)
+    def one(o):
+        return "%s(%s)" % (OPNAMES[o[0]] if o[0] < 13 else "?", ",".join(map(str, o[1:5])))
+    return "; ".join(one(o) if len(o) <= 5 or not o[5] else "%s{at I/O point %d: %s}" % (one(o), o[5] - 1, one(o[6:])) for o in ops)
 
 
 def shrink(binary, case, kind):
@@ -159,6 +203,12 @@ def shrink(binary, case, kind):
             if t["ops"] and fails(t):
                 cur, changed = t, True
                 break
+            o = cur["ops"][i]
+            if len(o) > 5 and o[5]:
+                t = {"cfg": cur["cfg"], "ops": cur["ops"][:i] + [o[:5]] + cur["ops"][i + 1:]}
+                if fails(t):
+                    cur, changed = t, True
+                    break
     return cur
 
 
@@ -174,13 +224,23 @@ def load_corpus():
     return out
 
 
-def exhaustive(binary, cfg, prefix, alphabet, depth, stride, offset):
+def exhaustive(binary, cfg, prefix, alphabet, depth, stride, offset, inject=()):
     """all words of length 1..depth over the alphabet after the prefix; one harness process per first letter"""
-    jobs = [{"mode": "ex", "cfg": cfg, "prefix": prefix, "alphabet": alphabet, "depth": 1, "stride": 1, "offset": 0}]
-    if depth > 1:
-        for i, a in enumerate(alphabet):
-            jobs.append({"mode": "ex", "cfg": cfg, "prefix": prefix + [a], "alphabet": alphabet, "depth": depth - 1,
-                         "stride": stride, "offset": offset + i})
+    inject = [list(j) for j in inject]
+    if inject:
+        # interleaved runs: every word, and every word with one injectable operation at every interleaving point of one host
+        jobs = [{"mode": "ex", "cfg": cfg, "prefix": prefix, "alphabet": alphabet, "depth": 1, "stride": stride, "offset": offset,
+                 "inject": inject}]
+        if depth > 1:
+            for i, a in enumerate(alphabet):
+                jobs.append({"mode": "ex", "cfg": cfg, "prefix": prefix + [a], "alphabet": alphabet, "depth": depth - 1,
+                             "stride": stride, "offset": offset + i, "inject": inject, "injfrom": len(prefix)})
+    else:
+        jobs = [{"mode": "ex", "cfg": cfg, "prefix": prefix, "alphabet": alphabet, "depth": 1, "stride": 1, "offset": 0}]
+        if depth > 1:
+            for i, a in enumerate(alphabet):
+                jobs.append({"mode": "ex", "cfg": cfg, "prefix": prefix + [a], "alphabet": alphabet, "depth": depth - 1,
+                             "stride": stride, "offset": offset + i})
     with ThreadPoolExecutor(max_workers=8) as ex:
         res = list(ex.map(lambda j: vlib.run_harness(binary, [j], timeout=1500)[0], jobs))
     return res
@@ -200,13 +260,15 @@ def run(ctx, only_cases=None):
         broken = b   # keep going: search the implementation for a concrete failing history first
 
     rng = ctx.rng
-    probes = [{"cfg": CFG0, "ops": w, "stream": "witness"} for w in (WITNESS_RAW, WITNESS_HS, WITNESS_TUN, WITNESS_WFAIL)]
+    probes = [{"cfg": CFG0, "ops": w, "stream": "witness"} for w in (WITNESS_RAW, WITNESS_HS, WITNESS_TUN, WITNESS_WFAIL,
+                                                                         WITNESS_LATE_CLOSE, WITNESS_CLOSE_RELOGIN, WITNESS_KICK_CLOSE)]
     if only_cases is not None:
         cases = probes[:1] + only_cases
     else:
         cases = probes + load_corpus()
         cases += gen_structured(rng, 12000 if thorough else 3000, 12)
         cases += gen_malformed(rng, 2000 if thorough else 500, 10)
+        cases += gen_interleaved(rng, 8000 if thorough else 2500, 10)
     outs = vlib.run_harness(binary, [{"cfg": c["cfg"], "ops": c["ops"]} for c in cases], timeout=900)
 
     # which tree is this?  The first probe is the registry-API witness of the recorded defect.
@@ -241,13 +303,17 @@ def run(ctx, only_cases=None):
                 {"case": small, "violations": (so["viol"] or o["viol"])[:6], "observed_last": (so["steps"] or [None])[-1]})
 
     # exhaustive small-scope enumeration (predicate on every sequence; a stride of them also goes to the model)
-    ex_total = ex_steps = 0
+    ex_total = ex_steps = ex_fired = 0
     ex_emitted = []
     if only_cases is None:
-        plans = [(CFG0, EX_PREFIX, EX_ALPHABET, 5 if thorough else 4, 37 if thorough else 23),
-                 ({"maxConn": 0, "maxCtl": 2, "tmo": 2}, EX_PREFIX, EX_ALPHABET_LIMIT, 5 if thorough else 3, 29 if thorough else 5)]
-        for cfg, prefix, alpha, depth, stride in plans:
-            for r in exhaustive(binary, cfg, prefix, alpha, depth, stride, rng.randrange(stride)):
+        plans = [(CFG0, EX_PREFIX, EX_ALPHABET, 5 if thorough else 4, 37 if thorough else 23, ()),
+                 ({"maxConn": 0, "maxCtl": 2, "tmo": 2}, EX_PREFIX, EX_ALPHABET_LIMIT, 5 if thorough else 3, 29 if thorough else 5, ()),
+                 # interleavings: every I/O point of every handshake / close / kick of the word x every injectable operation
+                 (CFG0, EX_PREFIX, EX_ALPHABET, 4 if thorough else 2, 61 if thorough else 7, EX_INJECT),
+                 ({"maxConn": 0, "maxCtl": 2, "tmo": 2}, EX_PREFIX, EX_ALPHABET_LIMIT, 3 if thorough else 2, 31 if thorough else 7, EX_INJECT)]
+        for cfg, prefix, alpha, depth, stride, inject in plans:
+            for r in exhaustive(binary, cfg, prefix, alpha, depth, stride, rng.randrange(stride), inject):
+                ex_fired += r.get("fired", 0)
                 ex_total += r["total"]
                 ex_steps += r["steps_total"]
                 examples = list(r["viol"])
@@ -349,10 +415,12 @@ def run(ctx, only_cases=None):
                 "resolves to a connection AND some transport has been closed.",
         "samples": [{"cfg": cases[i]["cfg"], "ops": describe(cases[i]["ops"]), "final_state": outs[i]["steps"][-1] if outs[i]["steps"] else None}
                     for i in (1, len(cases) // 2, len(cases) - 1) if i < len(cases)],
+        "interleaved_random_cases_fired": sum(1 for o in outs if any(st.get("fired") for st in o["steps"])),
+        "interleaved_exhaustive_runs_fired": ex_fired,
         "exhaustive_words": ex_total, "exhaustive_steps": ex_steps, "exhaustive_words_sent_to_model": len(ex_emitted),
         "model_vs_impl_cases": len(terms), "model_vs_impl_mismatches": len(mism),
         "impl_invariant_failures": nfail, "impl_known_defect_sequences": nknown,
-        "input_distribution": {"streams": {s: sum(1 for c in cases if c.get("stream") == s) for s in ("witness", "corpus", "structured", "malformed")},
+        "input_distribution": {"streams": {s: sum(1 for c in cases if c.get("stream") == s) for s in ("witness", "corpus", "structured", "malformed", "interleaved")},
                                "op_histogram": hist, "length_histogram": {str(k): v for k, v in sorted(lens.items())}, "features": feats},
         "generated_file_changed": gen_changed,
     })
